@@ -152,6 +152,9 @@ class Gen:
             if style == "ambiguous":
                 self.new_file(moddir + [D(n), MOD])
                 self.errors += 1
+                if crel is not None and r.random() < 0.6:
+                    # a file at the FALLBACK location as well: the ambiguity must still be an error, the file a decoy
+                    self.new_file(list(cdir) + (r.choice([[R(n)], [D(n), MOD]])))
             if style == "cfgattr":
                 if fid is not None:
                     self.facts[fid][0] = False         # a skipped default next to a candidate is shape W2: dedicated stream
@@ -189,6 +192,8 @@ class Gen:
             if fid is None:
                 return ["other"]
             self.child(fid, (list(cdir) + q)[:-1], None, fdepth + 1)
+            if r.random() < 0.25 and self.asts[fid]:
+                self.facts[fid][0] = True      # a skipped #[path] target that declares modules: they are pruned with it
             a["path"] = q
         elif style == "missing":
             self.errors += 1
